@@ -58,7 +58,7 @@ func ParseRdb(reader io.Reader, rbytes *atomic.Int64, size int, options ...RdbPa
 				if entry != nil {
 					pipe <- entry
 				} else {
-					if RdbVersion > 2 {
+					if l.rdbVersion >= 5 { // RDB versions 1-4 end at the EOF opcode, the CRC64 footer exists since version 5
 						if err := l.Footer(); err != nil {
 							pipe <- &BinEntry{
 								Err: errors.Join(common.ErrCorrupted, fmt.Errorf("parse rdb checksum error : %w", err)),
